@@ -62,7 +62,7 @@ def gen_message(r, name):
     return {"name": name, "fields": fields}
 
 
-def gen_spec(r, idx, transport=None, case_clash=None, shared_name=None):
+def gen_spec(r, idx, transport=None):
     pkg, pdir = r.pick(PACKAGES)
     spec = {"package": pkg, "dir": pdir, "transport": transport or TRANSPORTS[idx % len(TRANSPORTS)],
             "messages": [], "services": [], "two_files": r.maybe(0.4), "namespace_opt": None, "name_opt": None}
@@ -111,6 +111,29 @@ def gen_spec(r, idx, transport=None, case_clash=None, shared_name=None):
         allm[0]["internal"] = False      # selective generation needs at least one listed method
     if "rest" not in spec["transport"].split("+") and r.maybe(0.3):
         r.pick(allm)["cs"] = True        # client streaming: gRPC only
+    inject = r.random()
+    if inject < 0.06:
+        # RPC names equal up to letter case (inside the quantifier; known finding of the fix-up table)
+        cand = [(s, m) for s in spec["services"] for m in s["methods"]
+                if sum(1 for c in m["name"][1:] if c.isupper()) >= 1 and "_" not in m["name"] and m["name"][0].isupper()]
+        if cand:
+            s, m = r.pick(cand)
+            k = max(i for i, c in enumerate(m["name"]) if c.isupper())
+            twin = m["name"][:k] + m["name"][k].lower() + m["name"][k + 1:]
+            if not any(x["name"] == twin for sv in spec["services"] for x in sv["methods"]):
+                nmsg += 1
+                msg = gen_message(r, f"Req{nmsg}Twin")
+                spec["messages"].append(msg)
+                s["methods"].append({"name": twin, "input": msg["name"], "internal": False, "ss": False, "cs": False, "lro": False})
+    elif inject < 0.12 and len(spec["services"]) >= 2:
+        # one RPC name, two services, different requests (hypothesis FixupUnambiguous; informational)
+        s1, s2 = spec["services"][0], spec["services"][1]
+        m = s1["methods"][0]
+        if not any(nocase(x["name"]) == nocase(m["name"]) for x in s2["methods"]):
+            nmsg += 1
+            msg = gen_message(r, f"Req{nmsg}Other")
+            spec["messages"].append(msg)
+            s2["methods"].append({"name": m["name"], "input": msg["name"], "internal": False, "ss": False, "cs": False, "lro": False})
     if spec["transport"] == "rest" and r.maybe(0.4) and not any(s["name"] in ("Addresses", "RegionOperations") for s in spec["services"]) \
             and not any(nocase(m["name"]) in ("get", "insert") for m in allm):
         # extended operations (compute style) are REST-only in practice; with gRPC see the corpus probe
@@ -315,14 +338,18 @@ def input_fields(spec, m):
     return [(f["name"], bool(f["required"])) for f in msg["fields"]]
 
 
-def model_input(spec, naming):
+def model_input(spec, naming, service_order):
+    """service_order: names in the order of the real `api.services.values()` (a ChainMap over the proto files:
+    later files first) — the only thing read from the schema object besides the naming"""
+    by = {s["name"]: s for s in spec["services"]}
+    services = [by[n] for n in service_order if n in by] + [s for s in spec["services"] if s["name"] not in service_order]
     return {"op": "c15", "transports": spec["transport"].split("+"),
             "api": {"proto_package": spec["package"], "namespace": list(naming.module_namespace),
                     "versioned_module": naming.versioned_module_name,
                     "services": [{"name": s["name"], "methods": [
                         {"name": m["name"], "internal": bool(m["internal"]), "proto_plus": not m["input"].startswith("google."),
                          "ext_op": m.get("ext") == "op", "fields": [[n, rq] for n, rq in input_fields(spec, m)]}
-                        for m in s["methods"]]} for s in spec["services"]]}}
+                        for m in s["methods"]]} for s in services]}}
 
 
 def model_md_dict(mo):
@@ -373,7 +400,7 @@ def run_spec(ctx, spec, label, probe=None):
     payload = {"spec": spec}
     try:
         api, opts = genrun.build_api(b.req)
-        mi = model_input(spec, api.naming)
+        mi = model_input(spec, api.naming, [sv.name for sv in api.services.values()])
         mo = ctx.driver.ask([mi])[0]
         if "unsupported" in mo or "error" in mo:
             ctx.unsupported += 1
@@ -679,9 +706,17 @@ def _run(ctx):
 
 
 def search(ctx):
-    r = ctx.rng("search")
-    for i in range(24):
-        run_spec(ctx, gen_spec(r, i), f"search{i}")
+    path = private_driver(ctx)
+    try:
+        r = ctx.rng("search")
+        for i in range(24):
+            run_spec(ctx, gen_spec(r, i), f"search{i}")
+    finally:
+        if path:
+            try:
+                os.unlink(path)
+            except OSError:
+                pass
 
 
 def replay(ctx, payload):
@@ -694,8 +729,8 @@ def replay(ctx, payload):
     for f in ctx.failures:
         print("  failure:", f["key"], "-", f["what"])
     for d in ctx.disagreements:
-        print("  disagreement:", d["correspondence"], "-", d["what"][:300])
-    return not ctx.failures and not ctx.disagreements
+        print("  model/implementation disagreement (not a failure of the property by itself):", d["correspondence"], "-", d["what"][:300])
+    return not ctx.failures
 
 
 CLAIM = dict(
